@@ -62,7 +62,13 @@ func c13EncoderConforms(c *hx.Ctx, codec int, im c02Img, tag string) {
 	if err != nil {
 		cls := "c13-encoder-nonconformant"
 		if codec != 8 && c13EdgeAffected(pred, im.W, im.H) {
-			cls = "jll-firstrow-predictor-enc"
+			// the known finding explains the failure only if the same stream, read with the repo's edge
+			// convention in place of H.1.2.1 (and nothing else changed), gives back the source
+			if alt, _, e2 := c13RefDecodeConv(enc, true); e2 == nil {
+				if same, _ := c13SameSamples(im, alt); same {
+					cls = "jll-firstrow-predictor-enc"
+				}
+			}
 		} else if codec == 8 {
 			cls = "c13-encoder-nonconformant-sv1"
 		}
@@ -178,21 +184,38 @@ func c13DecoderConforms(c *hx.Ctx, sv1 bool, im c02Img, pred int, tableKind int,
 		}
 	}
 	dec, od := c02Decode(sv1, stream)
-	classify := func(generic string) string {
+	// Class predicates. The three repaired defects keep their specific keys (they are "fixed" entries now,
+	// so a recurrence is reported). The still-open edge-rule finding is attributed only when it fully
+	// explains the failure: a wrong reconstruction (never a decode error), and the real decoder returns the
+	// source from the SAME configuration encoded with the repo's edge convention instead of H.1.2.1.
+	classify := func(generic string, wrongSamples bool) string {
 		switch {
-		case sv1 && maxTd >= 1:
+		case sv1 && maxTd >= 1 && !wrongSamples:
 			return "sv1-sos-selector"
-		case !sv1 && maxTd >= 2:
+		case !sv1 && maxTd >= 2 && !wrongSamples:
 			return "jll-td23-rejected"
-		case !sv1 && c13EdgeAffected(pred, im.W, im.H):
-			return "jll-firstrow-predictor-dec"
-		case !sv1 && pred >= 4 && pred <= 6 && im.P >= 15:
+		case !sv1 && wrongSamples && c13EdgeAffected(pred, im.W, im.H):
+			alt := cfg
+			alt.RepoEdge = true
+			alt.Tables = map[int]c13Table{}
+			for d := range cfg.Tables { // a table with all 17 categories: the convention changes the category statistics
+				var t c13Table
+				copy(t.Bits[:], []int{0, 1, 5, 1, 1, 1, 1, 1, 1, 1, 1, 1, 1, 1, 0, 0})
+				t.Vals = []byte{0, 1, 2, 3, 4, 5, 6, 7, 8, 9, 10, 11, 12, 13, 14, 15, 16}
+				alt.Tables[d] = t
+			}
+			if d2, o2 := c02Decode(false, c13RefEncode(im, alt)); o2 == "ok" && d2.W == im.W && d2.H == im.H && d2.NC == im.NC && d2.P == im.P {
+				if same, _ := c13SameSamples(im, c02Img{W: d2.W, H: d2.H, NC: d2.NC, P: d2.P, S: c02Samples(d2.Pix, d2.W, d2.H, d2.NC, d2.P)}); same {
+					return "jll-firstrow-predictor-dec"
+				}
+			}
+		case !sv1 && wrongSamples && pred >= 4 && pred <= 6 && im.P >= 15:
 			return "jll-pred456-wrap"
 		}
 		return generic
 	}
 	if od != "ok" {
-		c02Fail(c, hx.Failure{Class: classify("c13-decode-" + od[:3] + "-" + name), What: "real Decode fails on a conformant stream: " + od[:min(len(od), 160)], Input: in})
+		c02Fail(c, hx.Failure{Class: classify("c13-decode-"+od[:3]+"-"+name, false), What: "real Decode fails on a conformant stream: " + od[:min(len(od), 160)], Input: in})
 		return
 	}
 	got := c02Img{W: dec.W, H: dec.H, NC: dec.NC, P: dec.P}
@@ -200,7 +223,7 @@ func c13DecoderConforms(c *hx.Ctx, sv1 bool, im c02Img, pred int, tableKind int,
 		got.S = c02Samples(dec.Pix, dec.W, dec.H, dec.NC, dec.P)
 	}
 	if same, where := c13SameSamples(im, got); !same {
-		c02Fail(c, hx.Failure{Class: classify("c13-decoder-nonconformant-" + name), What: "real Decode reconstructs a different image from a conformant stream: " + where, Input: in})
+		c02Fail(c, hx.Failure{Class: classify("c13-decoder-nonconformant-"+name, true), What: "real Decode reconstructs a different image from a conformant stream: " + where, Input: in})
 		return
 	}
 	if !sv1 && c13EdgeAffected(pred, im.W, im.H) {
